@@ -81,7 +81,7 @@ func Execute(sc *br.Scenario, spec Spec) (*Outcome, error) {
 			np, serr := w.Restart()
 			p = np
 			if serr != nil {
-				out.Findings = append(out.Findings, br.Finding{Key: "startup-sync-failed", Msg: serr.Error()})
+				out.Findings = append(out.Findings, br.Finding{Key: "startup-sync-failed", Msg: serr.Error(), Attempt: -1})
 			}
 		}
 		before := w.Snap()
@@ -114,14 +114,20 @@ func Execute(sc *br.Scenario, spec Spec) (*Outcome, error) {
 			}
 		}
 		out.Attempts = append(out.Attempts, ao)
-		out.Findings = append(out.Findings, oracleAfterAttempt(sc, w, before, after, &ao, i)...)
+		for _, fd := range oracleAfterAttempt(sc, w, before, after, &ao, i) {
+			fd.Attempt = i
+			out.Findings = append(out.Findings, fd)
+		}
 		crashedBefore = res.Crashed
 	}
 	out.Recovery = br.Recover(w, p, crashedBefore)
 	final := w.Snap()
 	out.Final = final.Lines()
 	out.TotalCall = len(w.Trace)
-	out.Findings = append(out.Findings, oracleAfterRecovery(sc, w, final, &out.Recovery)...)
+	for _, fd := range oracleAfterRecovery(sc, w, final, &out.Recovery) {
+		fd.Attempt = -1
+		out.Findings = append(out.Findings, fd)
+	}
 	return out, nil
 }
 
